@@ -165,11 +165,23 @@ def judge(A, obs):
         devs.append(dev('key-order-of-untainted-nodes-differs', dict(observed=list(got)[:12], expected=list(exp)[:12])))
     if not devs and not diff:
         # same records, other key order: keys with tainted writers may appear earlier / later
+        cs = set(clean)
+        dropk = {w['name'] for w in A.writers if w['name'] not in cs and w['drop']}
+        addk = {w['name'] for w in A.writers if w['name'] not in cs and w['add']}
+
+        def same_order_without(ign):
+            return [k for k in got if k not in ign] == [k for k in exp if k not in ign]
+        # blame the smallest explanation: keys whose earlier writer was DROPPED (F1/F6) appear later, keys whose writer was
+        # wrongly APPLIED (F3) appear earlier; F3 is only blamed when the dropped-writer keys do not explain the order
+        if dropk and same_order_without(dropk):
+            use_add = False
+        else:
+            use_add = True
         for w in A.writers:
-            if w['name'] not in set(clean):
+            if w['name'] not in cs:
                 if w['drop']:
                     mechs.add(R._dk(w))
-                if w['add']:
+                if w['add'] and use_add:
                     mechs.add('F3')
     if not devs:
         if 'F1' in mechs:
